@@ -939,6 +939,60 @@ class PipeFamily final : public vf::Family {
 
 }  // namespace
 
+// one fuzz target checks all five clauses of a program (the first failing clause is reported)
+class AllClauses final : public vf::Family {
+ public:
+  const char* Name() const final {
+    return "pipefuzz";
+  }
+  const char* Property() const final {
+    return "C02";
+  }
+  const char* Rule() const final {
+    return "libFuzzer (coverage-guided) over the byte encoding of the same pipeline programs; bytes are decoded into "
+           "fixed-width step records; oracle = all five clauses of the reference-model comparison (result, placement, "
+           "laziness + eager twin, allocation bound, release); non-trivial as for the rapidcheck family";
+  }
+  rc::Gen<Case> Gen() const final {
+    return rc::gen::just(Case{});
+  }
+  std::string Describe(const Case& c) const final {
+    return PipeFamily{"pipeline", "C02", kC02}.Describe(c);
+  }
+  Verdict Run(const Case& c, Explorer& ex) final {
+    Verdict v;
+    const Params p = Decode(c);
+    for (int clause : {kC02, kC05, kC12, kC20, kC03}) {
+      const std::string e = Compare(p, clause);
+      if (!e.empty()) {
+        v.Fail(e);
+        break;
+      }
+    }
+    PipeFamily helper{"pipeline", "C02", kC02};
+    Verdict h = helper.Run(c, ex);
+    v.nontrivial = h.nontrivial;
+    v.hash = h.hash;
+    return v;
+  }
+};
+#ifdef VF_FUZZ
+#  include "common/fuzz.hpp"
+extern "C" int LLVMFuzzerTestOneInput(const std::uint8_t* data, std::size_t size) {
+  static AllClauses fam;
+  static bool warm = [] {
+    Params w{};
+    w.source = kReadyException;
+    w.rej[0] = w.rej[1] = 1 << 30;
+    w.prog.push_back({1, 3, 0, 2, 0});
+    (void)Compare(w, kC03);
+    (void)Compare(w, kC03);
+    return true;
+  }();
+  (void)warm;
+  return vf::FuzzOne(fam, vf::FuzzShape{8, 5, 7, 0}, data, size);
+}
+#else
 int main(int argc, char** argv) {
   {
     // warm-up: one-time allocations (exception machinery, statics) must not fall into the first case's ledger window
@@ -954,6 +1008,8 @@ int main(int argc, char** argv) {
   PipeFamily c12{"lazy", "C12", kC12};
   PipeFamily c20{"allocs", "C20", kC20};
   PipeFamily c03{"release", "C03", kC03};
-  vf::Driver d{{&c02, &c05, &c12, &c20, &c03}};
+  AllClauses all;
+  vf::Driver d{{&c02, &c05, &c12, &c20, &c03, &all}};
   return d.Main(argc, argv);
 }
+#endif
